@@ -119,6 +119,9 @@ class CHECK(Check):
                 f_path = F.read(p_in, *args)
                 f_mem = F.read(content, *args)
                 eq_read = bool(f_path == f_mem) and bool(f_mem == f_path)
+                # the destination already exists and is longer than what will be written: writing replaces it
+                with real_open(p_out, "wb") as fh:
+                    fh.write(b"stale previous content \xe9\n" * 400)
                 f_mem.write(p_out)
                 buf = io.BytesIO() if binary else io.StringIO()
                 f_mem.write(buf)
